@@ -233,7 +233,7 @@ def check_obligations(ctx, pid, build_ok, build_log):
         if b.startswith('Closed under'):
             res['axioms'][n] = []
         else:
-            axs = re.findall(r'^([A-Za-z_][A-Za-z0-9_\.\']*)\s*:', b, flags=re.M)
+            axs = [a for a in re.findall(r'^([A-Za-z_][A-Za-z0-9_\.\']*)\s*:', b, flags=re.M) if a != 'Axioms']
             res['axioms'][n] = axs
             for a in axs:
                 if a not in AXIOM_WHITELIST and not a.startswith(('PrimFloat.', 'Uint63.', 'Int63.', 'PrimInt63.', 'FloatOps.', 'PArray.')):
